@@ -597,6 +597,22 @@ def check_lazy(case, stats):
             if colwise_after != colwise_before:
                 return [Failure(f"C20:column-wise-write-changed-by-field-access:{fcase['fmt']}", {"before": colwise_before[:300], "after": colwise_after[:300],
                                                                                                "accessed": [names[i % len(names)] for i in case["order"]]})]
+        if rep_name and len(ref):
+            # a chunk one of whose columns has been assigned is written, its other fields are inspected, and it is written again: the same bytes
+            a = read()
+            setattr(a, rep_name, getattr(read(), rep_name) + 1)
+            w1 = written(a)
+            looked = []
+            for i in case["order"]:
+                nm = names[i % len(names)]
+                if nm != rep_name:
+                    getattr(a, nm)
+                    looked.append(nm)
+            w2 = written(a)
+            if w1 != w2:
+                return [Failure(f"C20:assigned-chunk-bytes-changed-by-field-access:{fcase['fmt']}", {"assigned": rep_name, "accessed": looked, "before": w1[:300], "after": w2[:300]})]
+            if stats is not None and looked:
+                stats.extra["assigned_chunk_written_inspected_written"] = stats.extra.get("assigned_chunk_written_inspected_written", 0) + 1
         if rep_name:
             # a chunk that already carries a user-set column (set by assignment, or by an earlier replace) handed to bnp.replace for another column
             a = read()
